@@ -33,12 +33,14 @@ completely).
   Bidirectional              -> QBidirectional iff the entry of the wrapper
                                 (its name, else "QBidirectional") has
                                 kernel_quantizer; that entry is used for both
-                                directions.
+                                directions, also for an explicitly supplied
+                                backward_layer (own name, maybe own class).
   bias role                  -> None when use_bias is False.
   activation of those layers -> activation_quantizer if found, else
                                 relu/tanh/sigmoid ->
                                 quantized_relu|tanh|sigmoid(activation_bits),
-                                anything else untouched.
+                                anything else untouched (exact names only:
+                                hard_sigmoid, leaky_relu, relu6 ... stay).
   Activation                 -> QActivation / QAdaptiveActivation iff the entry
                                 is a string or a map containing the layer's
                                 activation.  The entry is looked up for the
@@ -159,8 +161,12 @@ def plan_layer(ld, qd, bits, prefer_adaptive=False):
     inner = _plan_rnn(kw["layer"], entry, by, bits)
     if not inner["selected"]:
       return _unchanged(ld)
-    return {"src_cls": cls, "cls": "QBidirectional", "selected": True,
-            "by": by, "roles": {}, "inner": inner}
+    p = {"src_cls": cls, "cls": "QBidirectional", "selected": True,
+         "by": by, "roles": {}, "inner": inner}
+    if kw.get("backward_layer"):
+      # an explicit backward layer is converted with the same entry
+      p["inner_bw"] = _plan_rnn(kw["backward_layer"], entry, by, bits)
+    return p
 
   if cls == "Activation":
     order = ["QActivation", "QAdaptiveActivation"]
@@ -297,7 +303,8 @@ def _ref_rnn(ld, p, name, src_cfg=None):
   return getattr(qkeras, p["cls"])(name=name, **args)
 
 
-def ref_layer(ld, p, src_cfg=None, inner_src_cfg=None, input_shape=None):
+def ref_layer(ld, p, src_cfg=None, inner_src_cfg=None, input_shape=None,
+              bw_src_cfg=None):
   """The layer the documented rules ask for, constructed from the target
   class with the configured strings (never through model_quantize).
 
@@ -318,7 +325,12 @@ def ref_layer(ld, p, src_cfg=None, inner_src_cfg=None, input_shape=None):
   if cls == "QBidirectional":
     inner_ld = ld["kw"]["layer"]
     inner = _ref_rnn(inner_ld, p["inner"], inner_ld["name"], inner_src_cfg)
-    kw = {k: v for k, v in ld["kw"].items() if k != "layer"}
+    kw = {k: v for k, v in ld["kw"].items()
+          if k not in ("layer", "backward_layer")}
+    if "inner_bw" in p:
+      bw_ld = ld["kw"]["backward_layer"]
+      kw["backward_layer"] = _ref_rnn(bw_ld, p["inner_bw"], bw_ld["name"],
+                                      bw_src_cfg)
     return qkeras.QBidirectional(inner, name=name, **kw)
   if cls in ("QSimpleRNN", "QLSTM", "QGRU"):
     return _ref_rnn(ld, p, name, src_cfg)
